@@ -162,19 +162,20 @@ let oracle (toks : string list) (impl : string list) : string option =
     match toks, impl with
     | "perm" :: "insert" :: w :: r :: p :: _, [w'] ->
       let w = n_of_hex w and r = n_of_hex r and p = n_of_hex p and w' = n_of_hex w' in
-      if not (perm_validb w) then None else
+      if not (perm_validb w && N.ltb (get_cnk w) (n_of_int 15) && N.leb r (get_cnk w)
+              && N.ltb p (n_of_int 15) && not (List.exists (fun x -> N.eqb x p) (perm_list w))) then None else
       if not (nlist_eq (perm_list w') (insert_at (N.to_nat r) p (perm_list w)))
       then Some "decode(insert_rank) <> insert_at"
       else if not (perm_validb w') then Some "insert_rank result not a valid permutation" else None
     | "perm" :: "delete" :: w :: r :: _, [w'] ->
       let w = n_of_hex w and r = n_of_hex r and w' = n_of_hex w' in
-      if not (perm_validb w) then None else
+      if not (perm_validb w && N.ltb r (get_cnk w)) then None else
       if not (nlist_eq (perm_list w') (remove_at (N.to_nat r) (perm_list w)))
       then Some "decode(delete_rank) <> remove_at"
       else if not (perm_validb w') then Some "delete_rank result not a valid permutation" else None
     | "perm" :: "empty" :: w :: _, [s] ->
       let w = n_of_hex w and s = n_of_hex s in
-      if not (perm_validb w) then None else
+      if not (perm_validb w) || not (N.ltb (get_cnk w) (n_of_int 15)) then None else
       if List.exists (fun x -> N.eqb x s) (perm_list w) then Some "get_empty_slot returned a slot in use"
       else if not (N.ltb s (n_of_int 15)) then Some "get_empty_slot out of range" else None
     | "perm" :: "split" :: n :: _, [w'] ->
